@@ -124,6 +124,27 @@ AccessListAt(j) ==
         base == Default(kind, <<4, j>>)
     IN  Item("accesslist", MkDoc([base EXCEPT !["accessList"] = AlNode(AlShape(<<4, j>>, sh))]), j)
 
+\* ---- D2: access lists as WORDS over a small alphabet of entries ----------------
+\* every sequence of at most 3 entries drawn from 6 entry values built from two addresses and two storage keys: this
+\* contains every pattern of repetition (the same entry twice in a row, twice with another one in between, the same
+\* key twice in one entry, the same address with different keys, keys in both orders).  An access list is a
+\* SEQUENCE: repetitions and order are part of the value that is signed.
+AlA == Prng(Key("alw/a", <<1>>), 20)
+AlB == Prng(Key("alw/b", <<1>>), 20)
+AlK1 == Prng(Key("alw/k", <<1>>), 32)
+AlK2 == Prng(Key("alw/k", <<2>>), 32)
+AlSigma == <<[addr |-> AlA, slots |-> <<>>], [addr |-> AlA, slots |-> <<AlK1>>], [addr |-> AlB, slots |-> <<AlK1>>],
+             [addr |-> AlA, slots |-> <<AlK1, AlK1>>], [addr |-> AlA, slots |-> <<AlK1, AlK2>>], [addr |-> AlA, slots |-> <<AlK2, AlK1>>]>>
+NAlWords == 2 * (6 + 36 + 216)
+AlWordAt(j) ==
+  LET kind == Kinds[2 + ((j - 1) % 2)]
+      w    == (j - 1) \div 2                                   \* 0..257
+      len  == IF w < 6 THEN 1 ELSE IF w < 42 THEN 2 ELSE 3
+      k    == IF w < 6 THEN w ELSE IF w < 42 THEN w - 6 ELSE w - 42
+      al   == [i \in 1..len |-> AlSigma[1 + ((k \div (6 ^ (len - i))) % 6)]]
+      base == Default(kind, <<12, j % 7>>)
+  IN  Item("accesslist_words", MkDoc([base EXCEPT !["accessList"] = AlNode(al)]), j)
+
 \* ---- E: chain ids x nonces (to see both parities with a chain id) ----------
 ChainIds == <<<<>>, <<1>>, <<255>>, <<1, 0, 0, 0, 0>>, Rep(8, 255), Prng(K("bigchain", <<>>), 31),
               \* largest c with 35 + 2c + 1 < 2^256 : (2^256 - 36) / 2 - ... = 2^255 - 18
